@@ -56,6 +56,35 @@ pub fn auto_trait_facts() -> Vec<(String, bool, bool, bool, bool)> {
     probe!(v, "Traverse<String>", Traverse<'static, String>, true, true);
     probe!(v, "ReverseTraverse<String>", ReverseTraverse<'static, String>, true, true);
     probe!(v, "DebugPrettyPrint<String>", DebugPrettyPrint<'static, String>, true, true);
+    // par_iter() exists for every T: Sync — also for one that is not Send
+    #[cfg(feature = "it-par")]
+    {
+        struct Pinned(#[allow(dead_code)] PhantomData<*const ()>);
+        unsafe impl Sync for Pinned {}
+        trait Fallback {
+            fn par_iter(&self) -> Option<()> {
+                None
+            }
+        }
+        impl<T> Fallback for Arena<T> {}
+        trait Avail {
+            fn avail(self) -> bool;
+        }
+        impl Avail for Option<()> {
+            fn avail(self) -> bool {
+                false
+            }
+        }
+        impl<'a, T: Sync> Avail for rayon::slice::Iter<'a, Node<T>> {
+            fn avail(self) -> bool {
+                true
+            }
+        }
+        let a: Arena<Pinned> = Arena::new();
+        // inherent Arena::<T: Sync>::par_iter wins over the fallback trait method when it applies
+        let has = a.par_iter().avail();
+        v.push(("Arena<Sync+!Send>::par_iter() available".to_string(), has, has, true, true));
+    }
     // an iterator over an arena of !Sync payloads must not be Send (it holds &Arena<T>)
     probe!(v, "Children<Cell<u8>>", Children<'static, Cell<u8>>, false, false);
     probe!(v, "Traverse<Cell<u8>>", Traverse<'static, Cell<u8>>, false, false);
